@@ -47,11 +47,21 @@ def sub(s, b, e):
     return s[b:e] if b <= e else ''
 
 
-def led_line(typed, ai='', pref_empty=False):
-    """The text of one input line after the editing keys ^H ^W ^U, and the autoindent after ^T ^D."""
+def led_line(typed, ai='', pref_empty=False, regs=None):
+    """The text of one input line after the editing keys ^H DEL ^W ^U, ^V x (literal), ^P / ^R x (register text),
+    and the autoindent after ^T ^D."""
     ln = ''
+    pend = 0
     for ch in typed:
-        if ch in '\x08\x7f':
+        if pend == 1:                             # the key after ^V, literally
+            ln += ch
+            pend = 0
+        elif pend == 2:                           # the register name after ^R
+            v = regs('' if ch == '"' else ch) if regs else None
+            if v:
+                ln += v[0]
+            pend = 0
+        elif ch in '\x08\x7f':
             ln = ln[:-1]
         elif ch == '\x15':
             ln = ''
@@ -63,6 +73,14 @@ def led_line(typed, ai='', pref_empty=False):
                 ai = ai[:-1]
             elif pref_empty and ln[:1] in (' ', '\t') and ln:
                 ln = ln[1:]
+        elif ch == '\x16':
+            pend = 1
+        elif ch == '\x12':
+            pend = 2
+        elif ch == '\x10':                       # ^P: the unnamed register
+            v = regs('') if regs else None
+            if v:
+                ln += v[0]
         elif ch == '\x17':
             if ln:
                 r = len(ln) - 1
@@ -77,17 +95,20 @@ def led_line(typed, ai='', pref_empty=False):
     return ln, ai
 
 
-def led_input(pref, post, typed):
-    """Insert mode with autoindent: returns the replacement text (see DESIGN Appendix D)."""
+def led_input(pref, post, typed, regs=None):
+    """Insert mode with autoindent: returns the replacement text, post as left at the end, and the number of
+    lines the input added (see DESIGN Appendix D)."""
     k = 0
     while k < len(pref) and k < 127 and pref[k] in BLANK:
         k += 1
     ai, pref = pref[:k], pref[k:]
     out = ''
+    nls = 0
     segs = typed.split('\n')
     for idx, seg in enumerate(segs):
         last = idx == len(segs) - 1
-        ln, ai = led_line(seg, ai, not pref)
+        ln, ai = led_line(seg, ai, not pref, regs)
+        nls += ln.count('\n') + (0 if last else 1)
         sp = 0
         while sp < len(ln) and ln[sp] in BLANK:
             sp += 1
@@ -100,7 +121,7 @@ def led_input(pref, post, typed):
             break
         pref = ''
         post = post.lstrip(BLANK)
-    return out + post, post
+    return out + post, post, nls
 
 
 class Ref8(c07.Ref):
@@ -271,7 +292,7 @@ class Ref8(c07.Ref):
                     pref, post = sub(self.full(r1), 0, o1), sub(self.full(r2), o2, -1)
             else:
                 pref, post = '', '\n'       # the empty buffer: the input ends the (new) first line
-            rep, post2 = led_input(pref, post, text)
+            rep, post2, _ = led_input(pref, post, text, self.regs.get)
             self.edit(rep, r1, r2 + 1 if self.L or True else 0)
             row = rep.count('\n') + 1
             self.r = r1 + row - 1 - 1
@@ -333,8 +354,8 @@ class Ref8(c07.Ref):
             while ln is not None and k < len(ln) and ln[k] in BLANK:
                 k += 1
             pref, post = (ln[:k] if ln is not None else ''), '\n'
-        rep, post2 = led_input(pref, post, text)
-        self.r += text.count('\n')
+        rep, post2, nls = led_input(pref, post, text, self.regs.get)
+        self.r += nls
         if key in 'oO' and not L:
             self.edit('\n', 0, 0)
         row = rep.count('\n') + 1 - 1
@@ -622,7 +643,8 @@ def model_shown(line):
 SAFE_MOT = list('hl0^$wbeWBEjk+-_G{}HML |')          # never fail (c needs that: its text would run as commands)
 ANY_MOT = SAFE_MOT + ['f', 'F', 't', 'T', ';', ',', '%']
 TYPED = ['a', 'b', 'xy', ' ', ' ', 'Q', '.', ')', 'é', '中', '\t', 'w_1', '-', 'foo bar', '  ']
-EDITKEYS = ['\x08', '\x17', '\x15', '\n', '\x08', '\x17', '\x15', '\n', '\x14', '\x04', '\x7f']
+EDITKEYS = ['\x08', '\x17', '\x15', '\n', '\x08', '\x17', '\x15', '\n', '\x14', '\x04', '\x7f',
+            '\x10', '\x10', '\x12a', '\x12"', '\x121', '\x12b', '\x12A', '\x16x', '\x16\t', '\x16\x08', '\x16\x17']
 
 
 def gen_typed(rng):
